@@ -591,3 +591,44 @@ theorem sanitizeBytes_eq (s : Bytes) : sanitizeBytes s = Utf8.sanitize s :=
   sanitizeAux_eq _ _ (Nat.le_refl _)
 
 end Gojq.Encode
+
+namespace Gojq.Encode
+open Gojq Gojq.Utf8
+
+/-- on well-formed UTF-8 the sanitiser is the identity -/
+theorem sanitizeAux_valid : ∀ (fuel : Nat) (s : Bytes), s.length ≤ fuel → validAux fuel s = true → sanitizeAux fuel s = s
+  | 0, s, h, _ => by
+    have : s = [] := List.eq_nil_of_length_eq_zero (by omega)
+    subst this; simp [sanitizeAux]
+  | fuel + 1, [], _, _ => by simp [sanitizeAux]
+  | fuel + 1, b :: rest, h, hv => by
+    have hl : rest.length ≤ fuel := by simp at h; omega
+    unfold validAux at hv
+    unfold sanitizeAux
+    by_cases hb : b.toNat < 0x80
+    · rw [decodeRune_ascii hb] at hv ⊢
+      simp only [Bool.true_and, Nat.max_self, List.drop_succ_cons, List.drop_zero] at hv
+      simp only [if_true, List.take_succ_cons, List.take_zero, List.drop_succ_cons, List.drop_zero]
+      rw [sanitizeAux_valid fuel rest hl hv]; rfl
+    · rcases decodeRune_cases b rest (by omega) with h0 | ⟨b1, t, rfl, hs⟩ | ⟨b1, b2, t, rfl, hs⟩ | ⟨b1, b2, b3, t, rfl, hs⟩
+      · rw [h0] at hv; simp at hv
+      · rw [decodeRune_seq2 hs] at hv ⊢
+        simp only [Bool.true_and] at hv
+        simp only [if_true]
+        rw [sanitizeAux_valid fuel _ (by simp at hl ⊢; omega) (by simpa using hv)]; rfl
+      · rw [decodeRune_seq3 hs] at hv ⊢
+        simp only [Bool.true_and] at hv
+        simp only [if_true]
+        rw [sanitizeAux_valid fuel _ (by simp at hl ⊢; omega) (by simpa using hv)]; rfl
+      · rw [decodeRune_seq4 hs] at hv ⊢
+        simp only [Bool.true_and] at hv
+        simp only [if_true]
+        rw [sanitizeAux_valid fuel _ (by simp at hl ⊢; omega) (by simpa using hv)]; rfl
+
+theorem sanitize_of_valid (s : Bytes) (h : Utf8.valid s = true) : Utf8.sanitize s = s := by
+  rw [← sanitizeBytes_eq]; exact sanitizeAux_valid _ _ (Nat.le_refl _) h
+
+theorem sanitize_valid (s : Bytes) : Utf8.valid (Utf8.sanitize s) = true := by
+  rw [← sanitizeBytes_eq]
+  exact (pieces_valid (encStrAux_pieces s.length s (Nat.le_refl _))).2.valid
+end Gojq.Encode
